@@ -15,6 +15,21 @@ def sh(cmd, cwd=None, timeout=3600):
     return p.returncode, p.stdout + p.stderr
 
 
+# the input on which a seeded change was caught is kept as a corpus case of that property (corpus cases run first in every run), so that the
+# change stays caught whatever later happens to the generator. Scenario-sized inputs are left out (they are pinned as generator shapes instead).
+HARVEST = {"C01", "C02", "C03", "C04", "C05", "C06", "C07", "C11", "C12", "C13", "C14", "C15", "C17", "C18", "C19", "C20"}
+SKIP_OPS = {"scn", "noise", "legs", "scn-impulse", "scn-join", "scenario"}
+
+
+def harvest(p, name, r):
+    case = r.get("case")
+    if p not in HARVEST or r.get("kind") != "failing-input" or not isinstance(case, dict) or str(case.get("op", "")) in SKIP_OPS:
+        return
+    d = VERIF / "corpus" / p
+    d.mkdir(parents=True, exist_ok=True)
+    (d / f"seed-{name}.json").write_text(json.dumps([case], indent=1))
+
+
 def main():
     name = sys.argv[1]
     dst = VERIF / "seeded" / name
@@ -38,6 +53,7 @@ def main():
                 try:
                     r = json.loads(Path(rp).read_text())
                     entry.update(replay_kind=r.get("kind"), replay_what=r.get("what", r.get("note")), replay_key=r.get("key"))
+                    harvest(p, name, r)
                 except Exception as e:  # noqa: BLE001
                     entry["replay_err"] = str(e)
             # `first_result` (what the check reported when the change was first run against it) is written once and never touched again
